@@ -37,7 +37,9 @@ for which, (name, preload) in EXES.items():
         d = None
     if d is None or r.returncode != 0:
         tot["violations"] += 1
-        tot["violation_list"].append({"msg": "%s: the test program did not finish cleanly (exit %d): %s" % (which, r.returncode, (r.stderr.strip().splitlines() or [""])[-1][:200]), "replay": "exec %s\nerrors" % which})
+        crash = [l for l in r.stderr.splitlines() if l.startswith("CRASH-AT ")]
+        rp = crash[-1].split(" in: ", 1)[1] if crash and " in: " in crash[-1] else "errors"
+        tot["violation_list"].append({"msg": "%s: the test program did not finish cleanly (exit %d): %s" % (which, r.returncode, (crash[-1] if crash else (r.stderr.strip().splitlines() or [""])[-1])[:200]), "replay": "exec %s\n%s" % (which, rp)})
         if d is None: continue
     tot["evaluations"] += d["evaluations"]; tot["distinct_nontrivial"] += d["distinct_nontrivial"]; tot["violations"] += d["violations"]
     tot["classes"][which + "_tuples"] = d["evaluations"]
